@@ -29,7 +29,9 @@ RULE = ("(a) exhaustive sweep of all 63 non-identity Pauli words on 3 letters x 
         "pauli_order, TrotterSuzukiUnitary time/repeat; oracle = scipy expm(-i t H) with H from vlib Pauli/Fock matrices: "
         "equality (1e-8) when all terms commute, else spectral-norm error <= Childs-et-al. commutator bound (order 1, 2); orders 4, 6: "
         "error <= order-p Taylor remainder bound at r and 2r steps and error(2r) <= 2 * 2^-p * error(r) when error(r) >= 1e-9. Non-trivial = (commuting: >=2 non-zero terms or non-zero identity term "
-        "or control) / (non-commuting: bound < 1; orders 4, 6: rate criterion active). Distinct = distinct canonical JSON of the case.")
+        "or control) / (non-commuting: bound < 1; orders 4, 6: rate criterion active). Every case builds its argument objects (operator, time dict, "
+        "control list, pauli_order, mapping_options) once, calls the function twice on them (second call with its own order / steps), judges both "
+        "results and compares the objects with snapshots after each call (argument mutation = violation). Distinct = distinct canonical JSON of the case.")
 ASSUMPTIONS = ["numpy/scipy linear algebra (scipy.linalg.expm, 2-norm by SVD)",
                "reference gate table vlib/refsim.py (self-tested against expm) with XX/RZ/PHASE conventions of DESIGN section 3",
                "product-formula bounds: Childs, Su, Tran, Wiebe, Zhu 2021 Prop. 9/10 evaluated on the input term order and its "
@@ -50,6 +52,27 @@ TOL = 1e-8
 
 
 # ------------------------------------------------------------------------------------------------- oracle helpers
+
+def snap(x):
+    """Plain, order- and type-sensitive snapshot of an argument object (dict order matters: it is the Trotter order)."""
+    if isinstance(x, dict):
+        return ("dict", [(snap(k), snap(v)) for k, v in x.items()])
+    if isinstance(x, (list, tuple)):
+        return (type(x).__name__, [snap(v) for v in x])
+    return (type(x).__name__, repr(x))
+
+
+def snap_args(args):
+    return {k: snap(v) for k, v in args.items()}
+
+
+def check_args(before, args, what, call):
+    """args: {name: object handed to the code under test}. Fail if any differs from its snapshot taken before the calls."""
+    for k, v in args.items():
+        if snap(v) != before[k]:
+            raise Fail(f"{what}: call #{call} changed the caller's `{k}` argument: before {before[k]!r:.300}, after {snap(v)!r:.300}",
+                       sig=f"{what}:argument-mutated:{k}")
+
 
 def ctrl_list(control):
     if control is None:
@@ -251,22 +274,27 @@ def word_body(case):
     control = case["control"]
     cl = ctrl_list(control)
     n = 1 + max([q for q, _ in word] + cl)
-    gates = exp_pauliword_to_gates(word, c, variational=case["variational"], control=control if control is None or isinstance(control, int) else list(control))
-    recs = [(g.name, list(g.target), list(g.control) if g.control else [], g.parameter) for g in gates]
-    used = [q for _, t, cc, _ in recs for q in t + cc]
-    if used and max(used) >= n:
-        raise Fail(f"gate list touches qubit {max(used)} outside word+control qubits", sig="exp_pauliword:foreign-qubit")
-    var_gates = [g for g in gates if g.is_variational]
-    if len(var_gates) != (1 if case["variational"] else 0):
-        raise Fail(f"{len(var_gates)} gates flagged variational with variational={case['variational']}", sig="exp_pauliword:variational-flag")
-    U = R.unitary(circuit_to_recs(gates), n)
+    ctl = pass_control(control)                      # built once, handed to both calls
+    args = {"control": ctl, "pauli_word": word}
+    before = snap_args(args)
     ref = controlled(expm(-1j * c * R.pauli_matrix(sorted(word), n)), cl, n)
-    d = float(np.max(np.abs(U - ref)))
-    if d > TOL:
-        kind = ("neg" if c < 0 else "pos") + ("-ctrl" if cl else "-noctrl")
-        dp = R.equal_up_to_phase(U, ref)[1]
-        raise Fail(f"exp_pauliword_to_gates({word}, {c}, control={control}) differs from controlled exp(-i c P) by {d:.3g} "
-                   f"(up to a global phase: {dp:.3g})", sig=f"exp_pauliword:{kind}", max_abs=d, up_to_phase=dp)
+    for call in (1, 2):
+        gates = exp_pauliword_to_gates(word, c, variational=case["variational"], control=ctl)
+        recs = [(g.name, list(g.target), list(g.control) if g.control else [], g.parameter) for g in gates]
+        used = [q for _, t, cc, _ in recs for q in t + cc]
+        if used and max(used) >= n:
+            raise Fail(f"gate list touches qubit {max(used)} outside word+control qubits", sig="exp_pauliword:foreign-qubit")
+        var_gates = [g for g in gates if g.is_variational]
+        if len(var_gates) != (1 if case["variational"] else 0):
+            raise Fail(f"{len(var_gates)} gates flagged variational with variational={case['variational']}", sig="exp_pauliword:variational-flag")
+        U = R.unitary(circuit_to_recs(gates), n)
+        d = float(np.max(np.abs(U - ref)))
+        if d > TOL:
+            kind = ("neg" if c < 0 else "pos") + ("-ctrl" if cl else "-noctrl") + (":second-call" if call == 2 else "")
+            dp = R.equal_up_to_phase(U, ref)[1]
+            raise Fail(f"exp_pauliword_to_gates({word}, {c}, control={control}) (call #{call}) differs from controlled exp(-i c P) by {d:.3g} "
+                       f"(up to a global phase: {dp:.3g})", sig=f"exp_pauliword:{kind}", max_abs=d, up_to_phase=dp)
+        check_args(before, args, "exp_pauliword", call)
     labels = {f"weight={len(word)}", "ctrl=" + ("none" if control is None else "int" if isinstance(control, int) else f"list{len(cl)}")}
     if c < 0 and cl:
         labels.add("neg-coef+control")
@@ -418,6 +446,8 @@ def qubit_evolve_cases(draw, families, times, orders=(1, 2), max_n=6, max_terms=
         case["method"] = draw(st.sampled_from(["", "time", "repeat"]))
         if isinstance(case["control"], list) and len(case["control"]) == 1 and draw(st.booleans()):
             case["control"] = case["control"][0]
+    # second call on the very same argument objects (possibly other order / number of steps)
+    case["second"] = {"order": draw(st.sampled_from(orders)), "steps": draw(st.integers(1, max_steps)), "n_steps": draw(st.integers(1, 3))}
     return case
 
 
@@ -436,7 +466,7 @@ def pass_control(control):
     return control if control is None or isinstance(control, int) else list(control)
 
 
-def evaluate(case, circuit, phase, terms_t, n_op, order, r, reps, ordered, labels, what, Hmat=None, drop_identity=False, extra_tol=0.0):
+def evaluate(case, circuit, phase, terms_t, n_op, order, r, reps, ordered, labels, what, Hmat=None, drop_identity=False, extra_tol=0.0, tag=""):
     """Common oracle.  terms_t: ordered list [(word, coef*time)] of the full evolution exponent (one `rep`);
     the circuit is expected to implement [S_order(./r)^r]^reps ~ exp(-i reps sum_j terms_t).  Hmat: optional
     independent matrix of sum_j terms_t on n_op qubits."""
@@ -472,8 +502,8 @@ def evaluate(case, circuit, phase, terms_t, n_op, order, r, reps, ordered, label
     if commuting:
         if err > tol:
             dp = R.phase_distance(U, ref)
-            sig = f"{what}:commuting-exact" + (":phase-only" if dp <= tol else "") + (":ctrl" if cl else "") + (":identity" if c_id else "")
-            raise Fail(f"{what}: phase*U(circuit) differs from exp(-itH) by {err:.3g} (spectral norm; {dp:.3g} up to a global phase) "
+            sig = f"{what}:commuting-exact" + (":phase-only" if dp <= tol else "") + (":ctrl" if cl else "") + (":identity" if c_id else "") + tag
+            raise Fail(f"{what}{tag}: phase*U(circuit) differs from exp(-itH) by {err:.3g} (spectral norm; {dp:.3g} up to a global phase) "
                        f"for commuting terms", sig=sig, err=err, up_to_phase=dp)
         nontrivial = len(nz) >= 2 or (c_id != 0 and (bool(cl) or not drop_identity)) or (bool(cl) and len(nz) >= 1)
         return nontrivial, labels
@@ -491,8 +521,8 @@ def evaluate(case, circuit, phase, terms_t, n_op, order, r, reps, ordered, label
         b = taylor_bound(lam, order)
     bound = reps * r * b
     if err > bound + tol:
-        raise Fail(f"{what}: error {err:.6g} exceeds the order-{order} product-formula bound {bound:.6g} (r={r}, reps={reps})",
-                   sig=f"{what}:bound-order{order}" + (":ctrl" if cl else ""), err=err, bound=bound)
+        raise Fail(f"{what}{tag}: error {err:.6g} exceeds the order-{order} product-formula bound {bound:.6g} (r={r}, reps={reps})",
+                   sig=f"{what}:bound-order{order}" + (":ctrl" if cl else "") + tag, err=err, bound=bound)
     labels.add("bound<1" if bound < 1 else "bound>=1")
     if bound < 0.05:
         labels.add("bound<0.05")
@@ -506,10 +536,13 @@ def known_identity_q0(case):
 
 
 def evolve_body(case):
+    """Argument objects are built once and handed to two consecutive calls (the second possibly with another order / number
+    of steps); both results are judged against the oracle computed from the plain case data, and after each call the
+    argument objects are compared with snapshots taken before the first call."""
     from tangelo.toolboxes.ansatz_generator.ansatz_utils import get_exponentiated_qubit_operator_circuit, trotterize
     from tangelo.toolboxes.unitary_generator import TrotterSuzukiUnitary
     from tangelo.toolboxes.operators import count_qubits
-    api, order, control = case["api"], case["order"], case["control"]
+    api, control = case["api"], case["control"]
     cl = ctrl_list(control)
     qop = build_qop(case["op"], case["cplx"], case["ofclass"])
     items = [(w, float(np.real(c))) for w, c in qop.terms.items()]     # input data: term order of the operator handed over
@@ -517,20 +550,21 @@ def evolve_body(case):
         raise Skip("operator container reordered/merged terms")        # cannot happen with unique terms; guards the oracle's order
     time = case["time"]
     if isinstance(time, dict):
-        tvals = list(time["dict"])
-        t_arg = {w: tv for (w, _), tv in zip(items, tvals)}
+        tvals0 = list(time["dict"])
+        t_arg = {w: tv for (w, _), tv in zip(items, tvals0)}
     else:
-        tvals = [time] * len(items)
+        tvals0 = [time] * len(items)
         t_arg = time
+    ctl = pass_control(control)
     n_op = max([q + 1 for w, _ in items for q, _ in w] + [0])
-    labels = {api, f"order{order}", "ctrl=" + ("none" if control is None else "int" if isinstance(control, int) else f"list{len(cl)}")}
+    labels = {api, "ctrl=" + ("none" if control is None else "int" if isinstance(control, int) else f"list{len(cl)}")}
     if isinstance(time, dict):
         labels.add("time-dict")
     else:
         if isinstance(time, int):
             labels.add("int-time")
         labels.add("t<0" if time < 0 else "t=0" if time == 0 else "t>3" if time > 3 else "t>0")
-    has_id = any((not w) and c != 0 and tv != 0 for (w, c), tv in zip(items, tvals))
+    has_id = any((not w) and c != 0 and tv != 0 for (w, c), tv in zip(items, tvals0))
     if has_id:
         labels.add("identity-term")
         if len(cl) > 1:
@@ -544,60 +578,83 @@ def evolve_body(case):
     if case["ofclass"]:
         labels.add("openfermion-class")
     order_idx = list(range(len(items)))
-    reps, r = 1, 1
-    drop_identity = False
-    try:
-        if api == "gexp":
-            kw = {}
-            if case.get("pauli_order") is not None:
-                order_idx = case["pauli_order"]
-                kw["pauli_order"] = [items[i] for i in order_idx]
-                labels.add("pauli_order")
-            out = get_exponentiated_qubit_operator_circuit(qop, time=t_arg, variational=case["variational"], trotter_order=order,
-                                                           control=pass_control(control), return_phase=case["return_phase"], **kw)
-            if case["return_phase"]:
-                circuit, phase = out
-                labels.add("return_phase")
+    args = {"operator.terms": qop.terms, "control": ctl}
+    if isinstance(t_arg, dict):
+        args["time"] = t_arg
+    kw = {}
+    if api == "gexp" and case.get("pauli_order") is not None:
+        order_idx = case["pauli_order"]
+        kw["pauli_order"] = [items[i] for i in order_idx]
+        args["pauli_order"] = kw["pauli_order"]
+        labels.add("pauli_order")
+    before = snap_args(args)
+    second = case.get("second") or {"order": case["order"], "steps": case.get("steps", 1), "n_steps": case.get("n_steps", 1)}
+    tsu = None
+    nontrivial = False
+    for call in (1, 2):
+        order = case["order"] if call == 1 else second["order"]
+        reps, r, drop_identity, phase = 1, 1, False, 1.0
+        tvals = list(tvals0)
+        lab = set()
+        try:
+            if api == "gexp":
+                out = get_exponentiated_qubit_operator_circuit(qop, time=t_arg, variational=case["variational"], trotter_order=order,
+                                                               control=ctl, return_phase=case["return_phase"], **kw)
+                if case["return_phase"]:
+                    circuit, phase = out
+                    lab.add("return_phase")
+                else:
+                    circuit, drop_identity = out, not cl
+            elif api == "trot":
+                r = case["steps"] if call == 1 else second["steps"]
+                out = trotterize(qop, time=t_arg, n_trotter_steps=r, trotter_order=order, control=ctl, return_phase=case["return_phase"])
+                if case["return_phase"]:
+                    circuit, phase = out
+                    lab.add("return_phase")
+                    if has_id and r > 1 and not cl:
+                        lab.add("phase**n_steps")
+                else:
+                    circuit, drop_identity = out, not cl
             else:
-                circuit, phase, drop_identity = out, 1.0, not cl
-        elif api == "trot":
-            r = case["steps"]
-            out = trotterize(qop, time=t_arg, n_trotter_steps=r, trotter_order=order, control=pass_control(control),
-                             return_phase=case["return_phase"])
-            if case["return_phase"]:
-                circuit, phase = out
-                labels.add("return_phase")
-                if has_id and r > 1 and not cl:
-                    labels.add("phase**n_steps")
-            else:
-                circuit, phase, drop_identity = out, 1.0, not cl
-        else:
-            r = case["steps"]
-            tsu = TrotterSuzukiUnitary(qop, time=t_arg, trotter_order=order, n_trotter_steps=r, n_steps_method=case["ctor_method"])
-            circuit = tsu.build_circuit(case["n_steps"], control=pass_control(control), method=case["method"])
-            phase, drop_identity = 1.0, not cl
-            method = case["method"] or case["ctor_method"]
-            labels.add(f"tsu-{method}")
-            sq, aq = tsu.qubit_indices()
-            if list(sq) != list(range(count_qubits(qop))) or list(aq):
-                raise Fail(f"TrotterSuzukiUnitary.qubit_indices() = {sq},{aq}", sig="tsu:qubit_indices")
-            if method == "repeat":
-                reps = case["n_steps"]
-            else:
-                tvals = [tv * case["n_steps"] for tv in tvals]
-            if case["n_steps"] > 1:
-                labels.add("tsu-n_steps>1")
-    except ValueError as e:
-        if "duplicate qubits" in str(e) and known_identity_q0(case):
-            raise Fail(f"{api}: identity term with control list {control} containing qubit 0 raises ValueError: {e}",
-                       sig="evolve:identity-term+multicontrol-containing-q0") from e
-        raise
-    if r > 1:
-        labels.add("steps>1")
-    terms_t = [(items[i][0], items[i][1] * tvals[i]) for i in order_idx]
-    if not (abs(phase) > 0 and abs(abs(phase) - 1) < 1e-9):
-        raise Fail(f"returned phase {phase} is not unimodular", sig=f"{api}:phase-modulus")
-    return evaluate(case, circuit, phase, terms_t, n_op, order, r, reps, True, labels, api, drop_identity=drop_identity)
+                # one TrotterSuzukiUnitary object, build_circuit called twice on it
+                r, order = case["steps"], case["order"]
+                if tsu is None:
+                    tsu = TrotterSuzukiUnitary(qop, time=t_arg, trotter_order=order, n_trotter_steps=r, n_steps_method=case["ctor_method"])
+                k = case["n_steps"] if call == 1 else second["n_steps"]
+                circuit = tsu.build_circuit(k, control=ctl, method=case["method"])
+                drop_identity = not cl
+                method = case["method"] or case["ctor_method"]
+                lab.add(f"tsu-{method}")
+                sq, aq = tsu.qubit_indices()
+                if list(sq) != list(range(count_qubits(qop))) or list(aq):
+                    raise Fail(f"TrotterSuzukiUnitary.qubit_indices() = {sq},{aq}", sig="tsu:qubit_indices")
+                if method == "repeat":
+                    reps = k
+                else:
+                    tvals = [tv * k for tv in tvals]
+                if k > 1:
+                    lab.add("tsu-n_steps>1")
+        except ValueError as e:
+            if "duplicate qubits" in str(e) and known_identity_q0(case):
+                raise Fail(f"{api}: identity term with control list {control} containing qubit 0 raises ValueError: {e}",
+                           sig="evolve:identity-term+multicontrol-containing-q0") from e
+            raise
+        lab.add(f"order{order}")
+        if r > 1:
+            lab.add("steps>1")
+        terms_t = [(items[i][0], items[i][1] * tvals[i]) for i in order_idx]
+        if not (abs(phase) > 0 and abs(abs(phase) - 1) < 1e-9):
+            raise Fail(f"returned phase {phase} is not unimodular", sig=f"{api}:phase-modulus")
+        nt, lab = evaluate(case, circuit, phase, terms_t, n_op, order, r, reps, True, lab, api, drop_identity=drop_identity,
+                           tag="" if call == 1 else ":second-call")
+        check_args(before, args, api, call)
+        if tsu is not None and snap(tsu.time) != snap(t_arg):
+            raise Fail(f"tsu: call #{call} changed TrotterSuzukiUnitary.time", sig="tsu:argument-mutated:time")
+        nontrivial = nontrivial or nt
+        labels |= lab if call == 1 else {"second-call:" + l for l in lab if l.startswith(("steps>1", "order", "noncommuting", "tsu-n_steps>1"))}
+        if call == 2 and r > 1 and isinstance(t_arg, dict):
+            labels.add("second-call:steps>=2+time-dict")
+    return nontrivial, labels
 
 
 @part("evolve_commuting", quick=500, thorough=25000)
@@ -649,14 +706,17 @@ def high_order_body(case):
     commuting = all(O.words_commute(a[0], b[0]) for a, b in itertools.combinations(nz, 2))
     droppable = sum(1 for w, c in items if w and abs(c * t) / r <= 1e-8)
 
+    ctl = pass_control(control)
+    args = {"operator.terms": qop.terms, "control": ctl}
+    before = snap_args(args)
+
     def run(steps):
         if api == "trot":
-            circ, ph = trotterize(qop, time=t, n_trotter_steps=steps, trotter_order=order, control=pass_control(control), return_phase=True)
+            circ, ph = trotterize(qop, time=t, n_trotter_steps=steps, trotter_order=order, control=ctl, return_phase=True)
             if circ.width > n:
                 raise Fail(f"circuit width {circ.width} > {n}", sig="high-order:width")
             return R.unitary(circuit_to_recs(circ), n) * ph
-        circ, ph = get_exponentiated_qubit_operator_circuit(qop, time=t / steps, trotter_order=order, control=pass_control(control),
-                                                            return_phase=True)
+        circ, ph = get_exponentiated_qubit_operator_circuit(qop, time=t / steps, trotter_order=order, control=ctl, return_phase=True)
         if circ.width > n:
             raise Fail(f"circuit width {circ.width} > {n}", sig="high-order:width")
         return np.linalg.matrix_power(R.unitary(circuit_to_recs(circ), n) * ph, steps)
@@ -664,6 +724,7 @@ def high_order_body(case):
     errs = {}
     for steps in (r, 2 * r):
         errs[steps] = specnorm(run(steps) - ref)
+        check_args(before, args, api, 1 if steps == r else 2)
         slack = 1e-10 * droppable * n_stages(order) * steps
         lam = suzuki_abs_factor(order) * norm1 * abs(t) / steps
         if commuting:
@@ -745,6 +806,7 @@ def fermion_cases(draw, times):
         t = draw(times)
         for o in out:
             o["t"] = t
+    case["second"] = {"order": draw(st.sampled_from([1, 2])), "steps": draw(st.integers(1, 3))}
     return case
 
 
@@ -775,11 +837,12 @@ FERM_TINY = 1e-6       # fermionic terms below this (per step) may lose some or 
 
 def ferm_no_ladder(case):
     """input class of the make_up_then_down defect: up_then_down requested and no ladder term survives the time scaling."""
-    r = case["steps"]
+    r = max(case["steps"], (case.get("second") or {}).get("steps", 1))       # either of the two calls
     return bool(case["up_then_down"]) and all((not k) or abs(c * t) / r < FERM_DROP for k, c, t in fermion_terms(case))
 
 
 def fermion_body(case):
+    """Same two-call / snapshot scheme as evolve_body: operator, time dict, mapping options and control are built once."""
     from tangelo.toolboxes.operators import FermionOperator
     from tangelo.toolboxes.ansatz_generator.ansatz_utils import trotterize
     from tangelo.toolboxes.qubit_mappings.mapping_transform import fermion_to_qubit_mapping
@@ -800,22 +863,15 @@ def fermion_body(case):
         opts["n_spinorbitals"] = m
     if mapping == "scbk":
         opts["n_electrons"] = 2
-    r, order, control = case["steps"], case["order"], case["control"]
+    control = case["control"]
     cl = ctrl_list(control)
-    no_ladder = all((not k) or abs(c * t) / r < FERM_DROP for k, c, t in fts)
-    try:
-        out = trotterize(fop, time=t_arg, n_trotter_steps=r, trotter_order=order, mapping_options=opts,
-                         control=pass_control(control), return_phase=case["return_phase"])
-    except ValueError as e:
-        if "max() iterable argument is empty" in str(e) and ferm_no_ladder(case):
-            raise Fail(f"trotterize(fermionic operator, up_then_down=True) raises '{e}' when no ladder term is left after time scaling "
-                       f"(zero time, tiny coefficients or constant-only operator)", sig="trot-ferm:up_then_down-without-ladder-terms") from e
-        raise
-    circuit, phase = out if case["return_phase"] else (out, 1.0)
-    # terms the operator arithmetic (scaling, mapping) may drop wholly or partly (|coef| < 1e-8 per step): whether kept or
-    # dropped, each changes the exponent by at most |c t|
-    extra_tol = 2 * sum(abs(c * t) for k, c, t in fts if abs(c * t) / r < FERM_TINY)
-    # effective exponent sum_k c_k t_k F_k
+    ctl = pass_control(control)
+    args = {"operator.terms": fop.terms, "mapping_options": opts, "control": ctl}
+    if isinstance(t_arg, dict):
+        args["time"] = t_arg
+    before = snap_args(args)
+    second = case.get("second") or {"order": case["order"], "steps": case["steps"]}
+    # effective exponent sum_k c_k t_k F_k (independent of the number of steps)
     eff = {k: c * t for k, c, t in fts}
     Hmat = None
     n_op = m - 2 if mapping == "scbk" else m
@@ -826,34 +882,57 @@ def fermion_body(case):
         Hmat = O.fermion_matrix(ft, m)
         if np.max(np.abs(Hmat - Hmat.conj().T)) > 1e-12:
             raise Skip("non-Hermitian exponent")
-    kept = {k: v for k, v in eff.items() if abs(v) >= FERM_TINY}
-    if no_ladder or not any(k for k in kept):
-        terms_t = [((), float(np.real(sum(v for k, v in eff.items() if not k))))]
-    else:
-        eff_op = FermionOperator()
-        for k, v in kept.items():
-            eff_op += FermionOperator(k, v)
-        q_eff = fermion_to_qubit_mapping(eff_op, mapping, n_spinorbitals=m, n_electrons=2 if mapping == "scbk" else None, up_then_down=utd)
-        if any(abs(np.imag(v)) > 1e-12 for v in q_eff.terms.values()):
-            raise Skip("non-Hermitian exponent")
-        terms_t = [(w, float(np.real(c))) for w, c in q_eff.terms.items()]
-    labels = {"ferm", f"map={mapping.lower()}", f"order{order}", "utd" if utd else "alternating",
+    labels = {"ferm", f"map={mapping.lower()}", "utd" if utd else "alternating",
               "ctrl=" + ("none" if control is None else "int" if isinstance(control, int) else f"list{len(cl)}")}
     if case["time_dict"] and len({t for _, _, t in fts}) > 1:
         labels.add("time-dict-distinct")
-    if r > 1:
-        labels.add("steps>1")
     if any(o["im"] != 0 for o in case["gens"]):
         labels.add("complex-fermion-coef")
     if case["return_phase"]:
         labels.add("return_phase")
     if Hmat is not None:
         labels.add("independent-fock-matrix")
-    if extra_tol > 0:
-        labels.add("tiny-terms(tolerance widened)")
-    drop_identity = (not case["return_phase"]) and not cl
-    return evaluate(case, circuit, phase, terms_t, n_op, order, r, 1, False, labels, "trot-ferm", Hmat=Hmat, drop_identity=drop_identity,
-                    extra_tol=extra_tol)
+    nontrivial = False
+    for call in (1, 2):
+        r, order = (case["steps"], case["order"]) if call == 1 else (second["steps"], second["order"])
+        no_ladder = all((not k) or abs(c * t) / r < FERM_DROP for k, c, t in fts)
+        try:
+            out = trotterize(fop, time=t_arg, n_trotter_steps=r, trotter_order=order, mapping_options=opts,
+                             control=ctl, return_phase=case["return_phase"])
+        except ValueError as e:
+            if "max() iterable argument is empty" in str(e) and utd and no_ladder:
+                raise Fail(f"trotterize(fermionic operator, up_then_down=True) raises '{e}' when no ladder term is left after time scaling "
+                           f"(zero time, tiny coefficients or constant-only operator)", sig="trot-ferm:up_then_down-without-ladder-terms") from e
+            raise
+        circuit, phase = out if case["return_phase"] else (out, 1.0)
+        # terms the operator arithmetic (scaling, mapping) may drop wholly or partly (|coef| < 1e-8 per step): whether kept or
+        # dropped, each changes the exponent by at most |c t|
+        extra_tol = 2 * sum(abs(c * t) for k, c, t in fts if abs(c * t) / r < FERM_TINY)
+        kept = {k: v for k, v in eff.items() if abs(v) >= FERM_TINY}
+        if no_ladder or not any(k for k in kept):
+            terms_t = [((), float(np.real(sum(v for k, v in eff.items() if not k))))]
+        else:
+            eff_op = FermionOperator()
+            for k, v in kept.items():
+                eff_op += FermionOperator(k, v)
+            q_eff = fermion_to_qubit_mapping(eff_op, mapping, n_spinorbitals=m, n_electrons=2 if mapping == "scbk" else None, up_then_down=utd)
+            if any(abs(np.imag(v)) > 1e-12 for v in q_eff.terms.values()):
+                raise Skip("non-Hermitian exponent")
+            terms_t = [(w, float(np.real(c))) for w, c in q_eff.terms.items()]
+        lab = {f"order{order}"}
+        if r > 1:
+            lab.add("steps>1")
+        if extra_tol > 0:
+            lab.add("tiny-terms(tolerance widened)")
+        drop_identity = (not case["return_phase"]) and not cl
+        nt, lab = evaluate(case, circuit, phase, terms_t, n_op, order, r, 1, False, lab, "trot-ferm", Hmat=Hmat, drop_identity=drop_identity,
+                           extra_tol=extra_tol, tag="" if call == 1 else ":second-call")
+        check_args(before, args, "trot-ferm", call)
+        nontrivial = nontrivial or nt
+        labels |= lab if call == 1 else {"second-call:" + l for l in lab if l.startswith(("steps>1", "order", "noncommuting"))}
+        if call == 2 and r > 1 and isinstance(t_arg, dict):
+            labels.add("second-call:steps>=2+time-dict")
+    return nontrivial, labels
 
 
 @part("evolve_fermion", quick=240, thorough=10000)
